@@ -414,7 +414,8 @@ func (c *pathParser) addArcFromA(points []Fl) {
 		c.currentX, c.currentY = points[5], points[6]
 		return
 	}
-	ra, rb := float64(points[0]), float64(points[1])
+	// "If rx or ry have negative signs, these are dropped; the absolute value is used instead"
+	ra, rb := math.Abs(float64(points[0])), math.Abs(float64(points[1]))
 	cx, cy := findEllipseCenter(&ra, &rb, float64(points[2])*math.Pi/180, float64(c.currentX),
 		float64(c.currentY), float64(points[5]), float64(points[6]), points[4] == 0, points[3] == 0)
 	points[0], points[1] = Fl(ra), Fl(rb)
